@@ -1074,7 +1074,8 @@ Theorem close_at_record_state file lead gs recs dd i rg t' fmt add_r rs' :
     sr_indent r1 = sr_indent (fst rg) /\ sr_entries r1 <> [] /\ sr_entries (fst rg) <> [] /\
     (add_r = [] -> length (fst g') = length (fst g) /\ count_open (sr_entries r1) = O /\
                    existsb is_open (rec_entries (rc_record rc')) = false /\
-                   map e_summary (rec_entries (rc_record rc')) = map e_summary (rec_entries (denote_record r1))).
+                   map e_summary (rec_entries (rc_record rc')) = map e_summary (rec_entries (denote_record r1)) /\
+                   map e_summary (rec_entries (denote_record r1)) = map e_summary (rec_entries (denote_record (fst rg)))).
 Proof.
   intros C Hsafe Hf Hrg Hv Hadd Hnb Ha.
   set (rs := denote_recs recs) in *.
@@ -1138,7 +1139,9 @@ Proof.
     split; [rewrite count_open_app, count_open_cons, N1, N2; reflexivity|].
     rewrite A3. unfold closed_entries. split.
     + rewrite existsb_app. cbn [existsb]. rewrite (no_open_existsb _ N1), (no_open_existsb _ N2). reflexivity.
-    + unfold denote_record. cbn [rec_entries with_entries sr_entries]. rewrite (map_app denote_entry), !(map_app e_summary). cbn [map]. reflexivity.
+    + split.
+      * unfold denote_record. cbn [rec_entries with_entries sr_entries]. rewrite (map_app denote_entry), !(map_app e_summary). cbn [map]. reflexivity.
+      * unfold r, denote_record. cbn [rec_entries with_entries sr_entries]. rewrite E, !(map_app denote_entry), !(map_app e_summary). cbn [map]. reflexivity.
 Qed.
 
 Theorem close_at_record file lead gs recs dd i rg t' fmt add_r rs' :
@@ -1268,7 +1271,7 @@ Definition a_switch (d : date) (t : time) (fmt : reformat bool) (s : sum_args) (
 Theorem switch_refines now cfg a s file recs d t rs' :
   spec_state file recs -> at_date now (a_date a) = Ok d -> at_time now cfg a = COk t -> valid_time t ->
   (forall rg, In rg recs -> open_entry_ok (fst rg)) ->
-  (forall current summary, resolve_summary s current None = COk summary -> summary_ok summary) ->
+  summaries_ok s (denote_recs recs) ->
   a_switch d t (time_format cfg a) s (denote_recs recs) = COk rs' ->
   exists file' recs',
     exec_simple now cfg (Switch a s) file = COk file' /\
@@ -1284,7 +1287,7 @@ Proof.
   destruct (a_close_in k t fmt [] rs) as [rs1|] eqn:Hc; [|discriminate].
   destruct (close_at_record_state file lead gs recs (dt d) k rg t fmt [] rs1 C Hsafe Hf Hrg Hvt ltac:(split; [exact I|reflexivity]) (Hnb rg (nth_error_In _ _ Hrg)) Hc)
     as (rc & rc' & g & g' & r1 & Hrc & Hg & F & Hclose & C' & S' & Hden & Hst' & Hlast' & Hind1 & Hne1 & Hne & Hadd0).
-  destruct (Hadd0 eq_refl) as (Hlen & Hcount & Hnoopen & Hsums). cbn [map] in Hclose.
+  destruct (Hadd0 eq_refl) as (Hlen & Hcount & Hnoopen & Hsums & Hsums0). cbn [map] in Hclose.
   assert (Hk : (k < length recs)%nat) by (apply nth_error_Some; congruence).
   assert (Hkg : (k < length gs)%nat) by (apply nth_error_Some; congruence).
   assert (Hn1 : nth_error rs1 k = Some (denote_record r1)).
@@ -1312,7 +1315,10 @@ Proof.
   set (o := a_open_range t fmt (entry_style3 (denote_record (fst rg))) rs).
   assert (Hto : time_ok (o_start o) = true).
   { apply valid_time_ok. unfold o, a_open_range, reformat_time. cbn [o_start]. destruct (apply_reformat _ _); [apply set_time_format_valid|]; exact Hvt. }
-  destruct (open_entry_se o summary Hto (Hsum _ _ Hres)) as (se & We & Hcr & Hdense & Hmul).
+  assert (Hsok : summary_ok summary).
+  { rewrite (resolve_summary_ext s (denote_record r1) (denote_record (fst rg)) None Hsums0) in Hres.
+    apply (Hsum _ _ _ Hres); [right; exact (nth_error_In _ _ Hn)|exact I]. }
+  destruct (open_entry_se o summary Hto Hsok) as (se & We & Hcr & Hdense & Hmul).
   destruct (insert_entry_conforming _ _ _ _ _ _ _ _ _ se P We Hcr) as (L'' & g'' & HI & C'' & S'').
   { cbn [fst]. rewrite count_open_app, Hcount. unfold count_open. cbn [filter]. destruct (is_open_value (se_value se)); cbn; lia. }
   pose proof (conforms_parse _ _ _ _ C'') as P''.
